@@ -8,7 +8,10 @@
      q_tape    the scripted replacement vectors, (design, attempt) -> vector
      q_cons    the constraint function as a table vector -> values
      q_trace   the OBSERVED global trace of gate events: (design, attempt, gate) in the order in which
-               the scheduler let the real threads pass the objective gate / the sync gate
+               the scheduler let the real threads pass the objective gate / the sync gate; GRefused = SQLite
+               (or the harness's fault injection) refused a write attempt of that design's row inside
+               sync_individual: Model/Parallel.v XRefused, a step without effect that is erased here, legal
+               only for a task that has passed its sync gate (all its model steps are consumed: it is writing)
    Output: whether the observed trace is an interleaving (merge) of the model's task step lists
    projected on the two observable step kinds, the model's final state for that interleaving
    (hidden steps placed where the real thread runs them: between its own gates), and the serial result. *)
@@ -17,7 +20,7 @@ From Artap Require Export Base.Ord Base.FloatInst Model.Job Model.Parallel Run.C
 Import ListNotations.
 Local Open Scope nat_scope.
 
-Inductive gate := GObj | GSync.
+Inductive gate := GObj | GSync | GRefused.
 
 Record par_case := {
   q_signs : list bool;
@@ -45,7 +48,7 @@ Definition observable (s : step) : option gate :=
   match st_kind s with KObj => Some GObj | KSync => Some GSync | _ => None end.
 
 Definition gate_eqb (a b : gate) : bool :=
-  match a, b with GObj, GObj | GSync, GSync => true | _, _ => false end.
+  match a, b with GObj, GObj | GSync, GSync | GRefused, GRefused => true | _, _ => false end.
 
 (* the leading steps a thread runs without passing a gate *)
 Fixpoint split_hidden (l : list step) : list step * list step :=
@@ -84,6 +87,11 @@ Fixpoint expand (rem : list (nat * list step)) (tr : list (nat * nat * gate)) (a
   : bool * list step * list (nat * list step) :=
   match tr with
   | [] => (true, acc, rem)
+  | (id, att, GRefused) :: tr' =>
+      match get_assoc rem id with
+      | Some [] => expand rem tr' acc
+      | _ => (false, acc, rem)
+      end
   | (id, att, g) :: tr' =>
       match get_assoc rem id with
       | Some l => match pop_event l att g with
